@@ -99,6 +99,34 @@ func genC12(r *Rng, e *Emitter, n int) {
 		}
 		e.tally("exhaustive-4x4")
 	}
+	// the widest spread of exponents one call can carry: a long segment through the origin with ends
+	// near 2^±1000 and slope 1 + j·2^-52, and a short one that starts a few units of 2^-1074 off that line
+	// (or on it) near the origin — the exact classification needs some four thousand bits
+	for i := 0; i < n/40+6; i++ {
+		big := math.Ldexp(1, 900+r.Intn(101))
+		slope := 1 + float64(1+r.Intn(3))*math.Ldexp(1, -52)
+		tiny := math.Ldexp(1, -1074+r.Intn(20))
+		o := geom.Coord{-big, -big * slope}
+		p := geom.Coord{big, big * slope}
+		ex := math.Ldexp(1, 52) + float64(r.Intn(4))
+		f0 := geom.Coord{ex * tiny, (ex + float64(r.Intn(7)-2)) * tiny}
+		f1 := geom.Coord{float64(r.Intn(5) - 2), float64(r.Intn(5)-2) + 0.5}
+		if r.chance(1, 4) {
+			f1 = geom.Coord{-f0[0], -f0[1] * slope}
+		}
+		if r.chance(1, 2) {
+			o, p = p, o
+		}
+		if r.chance(1, 2) {
+			f0, f1 = f1, f0
+		}
+		e.tally("widest-exponent-range")
+		if r.chance(1, 2) {
+			emitSeg(e, o, p, f0, f1)
+		} else {
+			emitSeg(e, f0, f1, o, p)
+		}
+	}
 	// a long segment and a second one that starts (or ends) at a lattice point adjacent to it —
 	// orientation determinant +-1, +-2 — and properly crosses it or just misses it
 	for i := 0; i < n/6; i++ {
